@@ -16,6 +16,7 @@ import tempfile
 from pathlib import Path
 
 from ..core import Family
+from ..sim import client_holdpeer as H
 from ..sim.client_storefault import store_fault
 from .c03 import CA_FIRST, CERT_FP, CERTS, DOTTED_FIRST, HOSTS, SHM, TWIN_PAIRS, Runner, cert_desc, expected_steps, sem, spell, variant_id
 
@@ -47,6 +48,14 @@ ASSUMPTIONS = [
     "a second call (get or upload to ANOTHER host:port - never seen, pinned, pinned to another certificate, or with nobody listening) may be in flight on the same "
     "client object while the call under test is made (asyncio.gather; started just before or 0..3 ms after it): one client object serving several coroutines is the "
     "ordinary use of a long-lived application, and each connection - also the bystander's - must pass the check against the pin of the host:port IT was made to",
+    "two calls to the SAME host:port may be in flight on one TOFU store (one client object, or two client objects on one store file), their peers presenting "
+    "different certificates (the genuine server and an impostor on the path of one connection); the scripted peer can hold its TLS handshake back "
+    "(sim/client_holdpeer.py), so the order in which the two handshakes complete is the harness's choice.  The pin that counts for a connection is the one in "
+    "force when ITS certificate is checked, i.e. after its handshake: a host that was unpinned when the call began and has been pinned meanwhile is a pinned host. "
+    "Whatever the order, two different certificates for one host:port cannot both pass the check against one store",
+    "a pin stays in force however many OTHER host:port pairs the store sees for the first time afterwards (300 / 1100 / in the thorough tier 2100 of them, recorded "
+    "the way the client records a first use: TOFUDatabase.trust): a store has no licence to forget a pin, so the impostor of a host pinned long ago must still be "
+    "refused with nothing sent",
 ]
 LEVEL_TEXT = ("Lean 4 theorems over a hand-written model of the ordered effect trace of GeminiClient._get_single / upload (connect, verify, trust, "
               "send, await, close), for every store, key, presented certificate and payload, lifted to arbitrary histories and redirect chains; the model "
@@ -92,7 +101,20 @@ MODES = ["eager", "lazy", "never"]
 #               known to the store - "unpinned" | "pinned" (to the certificate it presents) | "changed" (to another one) | "dead"
 #               (nobody listens), "same_cert": it presents the certificate the target presents, "order": started "before" or
 #               "after" the call under test, "gap": milliseconds between the two starts}
+#   rival       a SECOND call to the SAME host:port in flight on the same TOFU store while the call under test is made: {"op": get|upload,
+#               "cert": its peer presents the "same" certificate as the target presents or the "other" one (the pinned one in a
+#               "changed" scenario), "who": made by the "same" client object or by an"other" client object on the same store file,
+#               "how": "hold" = the peer of the call under test holds its TLS handshake back until the rival call has COMPLETED, then lets it
+#               go; "hold-rival" = the other way round (the rival's handshake is held until the call under test has completed);
+#               "gather" = both started `gap` ms apart, nobody holds (which connection is shown which certificate is then decided by the
+#               accept order), "order": who starts first ("gather" only)}
+#   crowd       between the making of the target's pin and the call, the same store sees N OTHER host:port pairs for the first time
+#               (TOFUDatabase.trust = what the client does on a first use): {"n": N, "shape": "names" (other host names, the target's port
+#               number) | "ports" (the target's host name, other port numbers) | "mixed"}
 WARMS = [None, "other-port", "other-host"]
+RIVAL_HOWS = ["hold", "hold-rival", "gather"]
+RIVAL_SITS = ("unpinned", "pinned", "changed")
+CROWD_SHAPES = ["names", "ports", "mixed"]
 HCASES = [None, "upper", "title", "mixed", "last"]
 # names with letters: not the IP literals, and not the look-alike with a `%` (not a name of any DNS; urllib keeps the case of whatever
 # follows a `%` in the authority - for a zone id - so that name in another case IS another TOFU key in the code as it stands)
@@ -148,6 +170,50 @@ def along_desc(case) -> str:
         return ""
     return f" WHILE a {al['op']} to {HOSTS[al['host']]!r} (other port; {al['state']} there), started {al['gap']} ms {al['order']} it, was in flight on the same client object"
 
+
+
+def rival_cert(case) -> int:
+    """the certificate the rival call's peer presents"""
+    return case["cert"] if case["rival"]["cert"] == "same" else other_cert(case["cert"], case.get("twin"))
+
+
+def rival_desc(case) -> str:
+    rv = case.get("rival")
+    if not rv:
+        return ""
+    who = "the same client object" if rv["who"] == "same" else "another client object on the same store file"
+    if rv["how"] == "hold":
+        return (f" whose peer held its TLS handshake back WHILE a {rv['op']} of {who} to the SAME host:port was shown certificate {CERTS[rival_cert(case)]!r} and completed "
+                f"(then the handshake was let go)")
+    if rv["how"] == "hold-rival":
+        return f" made WHILE the peer of a {rv['op']} of {who} to the SAME host:port (certificate {CERTS[rival_cert(case)]!r}) held its TLS handshake back"
+    return f" WHILE a {rv['op']} of {who} to the SAME host:port (certificate {CERTS[rival_cert(case)]!r}), started {rv.get('gap', 0)} ms apart, was in flight"
+
+
+def crowd_desc(case) -> str:
+    cr = case.get("crowd")
+    if not cr:
+        return ""
+    return f" AFTER the store, the pin made, had seen {cr['n']} OTHER host:port pairs for the first time (TOFUDatabase.trust; {cr['shape']})"
+
+
+def crowd_keys(case, hostname: str, port: int, avoid) -> list:
+    """the other host:port pairs of a crowd: never the target's pair, never a port of the harness"""
+    cr = case["crowd"]
+    out = []
+    for i in range(cr["n"]):
+        shape = cr["shape"] if cr["shape"] != "mixed" else ("names", "ports", "far")[i % 3]
+        if shape == "names":
+            out.append((f"n{i}.crowd.test", port))
+        elif shape == "ports":
+            q = 20000 + i
+            while q in avoid:
+                q += 30000
+            out.append((hostname, q))
+        else:
+            out.append((f"f{i}.elsewhere.test", 1965))
+    return out
+
 LIVES = [None, "with", "after-with", "reentered", "overlap"]
 TWIN_PARTNER = {a: b for pr in TWIN_PAIRS for a, b in (pr, pr[::-1])}
 SPELLED_HOSTS = [3, 4] + list(range(DOTTED_FIRST, len(HOSTS)))
@@ -175,17 +241,23 @@ def content_of(case) -> bytes:
     return (seed * (n // len(seed) + 1))[:n]
 
 
-def should_fail(case) -> bool:
-    """verification cannot pass: changed / unreadable certificate, or the pin cannot be looked up"""
+def should_fail(case):
+    """verification cannot pass: changed / unreadable certificate, or the pin cannot be looked up (None: not determined by the case)"""
     if not case["tofu"]:
         return False
+    rv = case.get("rival")
+    if rv and rv["cert"] == "other":
+        if rv["how"] == "gather":
+            return None            # which of the two connections is shown which certificate is decided by the accept order: see oracle_rival
+        if rv["how"] == "hold" and case["situation"] == "unpinned":
+            return True            # the rival call pinned the OTHER certificate while this call's handshake was held back
     return case["situation"] not in ("unpinned", "pinned") or case.get("fault") in ("select", "locked")
 
 
 class Scenarios(Family):
     realtime = True     # runs on the wall clock (sockets, threads): a failure is re-run once before it counts (core.run_family)
     name = "scenarios"
-    quick_n = 880
+    quick_n = 930
     thorough_n = 4000
     parallel = True      # every process binds its own ports (port 0) in setup()
 
@@ -193,6 +265,9 @@ class Scenarios(Family):
         import socket
 
         self.R = SpellRunner()
+        for p in self.R.peers:
+            H.install(p)         # the step ["hold", gate, timeout]: the TLS handshake of that connection waits for the harness
+        self.gate_n = 0
         # a port of this machine nobody listens on (bound, never listening: connecting is refused; kept for the life of the process)
         self.dead_sock = socket.socket()
         self.dead_sock.bind(("127.0.0.1", 0))
@@ -250,6 +325,15 @@ class Scenarios(Family):
                               "order": rng.choice(["after", "after", "before"]), "gap": rng.choice([0, 0, 1, 3])}
                 d["warm"] = None
                 d["fault"] = None
+            elif op != "chain" and sit in RIVAL_SITS and rng.random() < 0.1:
+                # a second call to the SAME host:port on the same store; no earlier call there, no queued impostor, the store works
+                d["rival"] = {"op": rng.choice(["get", "upload"]), "cert": rng.choice(["other", "other", "same"]), "who": rng.choice(["same", "same", "other"]),
+                              "how": rng.choice(RIVAL_HOWS), "order": rng.choice(["after", "before"]), "gap": rng.choice([0, 0, 1, 3])}
+                d["warm"] = None
+                d["fault"] = None
+                d["drop"] = None
+            if rng.random() < 0.02:
+                d["crowd"] = {"n": rng.choice([300, 1100, 1100] + ([2100] if thorough else [])), "shape": rng.choice(CROWD_SHAPES)}
             return d
 
         def fix(c):
@@ -309,6 +393,19 @@ class Scenarios(Family):
                         continue
                     wit.append({"situation": sit, "op": op, "along": {"op": ("get", "upload")[len(wit) % 2], "host": len(wit) % 3, "state": state,
                                                                       "same_cert": state == "pinned" or len(wit) % 4 == 0, "order": order, "gap": gap}})
+        # a second call to the SAME host:port on the same store, the order of the two handshakes chosen by the harness
+        for op in ("getq", "upload", "delete"):
+            for sit, how, rcert, who, gap in (("unpinned", "hold", "other", "same", 0), ("unpinned", "hold", "other", "other", 0), ("unpinned", "hold-rival", "other", "same", 0),
+                                              ("unpinned", "gather", "other", "same", 0), ("unpinned", "gather", "other", "other", 1), ("unpinned", "hold", "same", "same", 0),
+                                              ("pinned", "hold", "other", "same", 0), ("pinned", "hold-rival", "same", "other", 0), ("changed", "hold", "other", "same", 0),
+                                              ("changed", "hold-rival", "same", "same", 0), ("changed", "gather", "other", "same", 0)):
+                wit.append({"situation": sit, "op": op, "rival": {"op": ("upload", "get")[len(wit) % 2], "cert": rcert, "who": who, "how": how,
+                                                                  "order": ("after", "before")[len(wit) % 2], "gap": gap}})
+        # a pin made long ago: the store has seen many other hosts since
+        for op in ("getq", "upload", "delete", "chain"):
+            for sit, n_others, shape, via in (("changed", 1100, "names", "trust"), ("changed-after-ok", 1100, "mixed", "trust"), ("changed", 300, "ports", "legacy"),
+                                              ("pinned", 1100, "mixed", "import")):
+                wit.append({"situation": sit, "op": op, "pin_via": via, "crowd": {"n": n_others, "shape": shape}})
         for i, wcase in enumerate(self.share(wit)):
             count += 1
             base = {"tofu": True, "mode": MODES[i % 3], "cert": [0, 1, 2, 4, 5][i % 5], "size": 1000 if wcase["op"] == "upload" else 0,
@@ -411,8 +508,18 @@ class Scenarios(Family):
         mode = case["mode"]
 
         drop = case.get("drop")
+        rv = case.get("rival")
+        self.gate_n += 1
+        gname = f"c11-{os.getpid()}-{self.gate_n}"
 
         def steps_for(i, reply):
+            st = plain_steps_for(i, reply)
+            if rv and rv["how"] == "hold" and i == len(hops) - 1:
+                # accepted, certificate chosen, but the handshake waits until the rival call has completed
+                st = [["hold", gname, 4.0]] + st
+            return st
+
+        def plain_steps_for(i, reply):
             tail = [["close"]] if reply[:1] == b"2" else [["read_eof", 2.0], ["close"]]
             if drop and i == len(hops) - 1:
                 # the connection that is sent the request goes away without a byte of answer
@@ -513,6 +620,11 @@ class Scenarios(Family):
                     assert first[0] == "ok", first
                 else:
                     tdb.trust(HOSTS[wk[0]], R.ports[wk[1]], R.w["certs"].x509(CERTS[wcert]))
+            if case.get("crowd") and case["tofu"]:
+                # the store sees many other hosts for the first time (what the client does on a first use: trust)
+                shown = [R.w["certs"].x509(CERTS[c]) for c in (case["cert"], other_cert(case["cert"]), 0, 1, 2)]
+                for n, (hn, pn) in enumerate(crowd_keys(case, HOSTS[target[0]], R.ports[target[1]], set(R.ports) | {self.dead_port})):
+                    tdb.trust(hn, pn, shown[n % len(shown)])
             with store_fault(case.get("fault") if case["tofu"] else None, db):
                 return await in_life(client)
 
@@ -578,9 +690,59 @@ class Scenarios(Family):
             except Exception as e:  # noqa: BLE001
                 return R.classify(e)
 
+        riv_box: list = []
+
+        async def rival_run(client):
+            """the call under test and a second call to the SAME host:port, on one store; who completes its handshake first is chosen here"""
+            how = rv["how"]
+            other = client if rv["who"] == "same" else mk_client()
+            rsteps = [["read_request", 3.0], ["send", b"20 text/gemini\r\nrival\n"], ["close"]]
+            if how == "hold-rival":
+                rsteps = [["hold", gname, 4.0]] + rsteps
+
+            async def rival(wait_ms=None):
+                if wait_ms:
+                    await asyncio.sleep(wait_ms / 1000.0)
+                r, _ = await R.call(other, rv["op"], [[target[0], target[1], rival_cert(case), ""]], content=b"RIVAL-CONTENT", token="rival-token",
+                                    query="?rival=1" if rv["op"] == "get" else "", path="/rival", steps_for=lambda i, reply: rsteps)
+                return r
+
+            async def later(ms):
+                if ms:
+                    await asyncio.sleep(ms / 1000.0)
+                return await solo_call(client)
+
+            t = None
+            held = None
+            try:
+                if how == "hold":
+                    t = asyncio.ensure_future(solo_call(client))
+                    held = await H.accepted(gname)
+                    rres = await rival()
+                    H.release(gname)
+                    out = await t
+                elif how == "hold-rival":
+                    t = asyncio.ensure_future(rival())
+                    held = await H.accepted(gname)
+                    out = await solo_call(client)
+                    H.release(gname)
+                    rres = await t
+                elif rv.get("order") == "before":
+                    rres, out = await asyncio.gather(rival(), later(rv.get("gap", 0)))
+                else:
+                    out, rres = await asyncio.gather(solo_call(client), rival(rv.get("gap", 0)))
+            finally:
+                H.forget(gname)
+                if t is not None and not t.done():
+                    await asyncio.gather(t, return_exceptions=True)
+            riv_box.append({"result": rres, "held": held})
+            return out
+
         async def main_call(client):
             R.hcase = case.get("hcase")
             try:
+                if rv:
+                    return await rival_run(client)
                 al = case.get("along")
                 if not al:
                     return await solo_call(client)
@@ -613,6 +775,24 @@ class Scenarios(Family):
             logs = [e for e in logs if e["port"] != R.ports[0]]
             out["along"] = {"result": by_box[0] if by_box else None,
                             "conns": [{"len": len(e["rx"]), "head": e["rx"][:96].decode("latin-1"), "hs": e["hs"], "cert": e["cert"]} for e in mine]}
+
+        if rv:
+            # the rival's connection: by accept order when a handshake was held (the held one was accepted first), else by the path it carries
+            rlog = None
+            if rv["how"] == "hold":
+                rlog = next((e for e in logs if not e.get("held")), None)
+            elif rv["how"] == "hold-rival":
+                rlog = next((e for e in logs if e.get("held")), None)
+            else:
+                named = [e for e in logs if b"/rival" in e["rx"][:400]]
+                silent = [e for e in logs if not e["rx"]]
+                if named:
+                    rlog = named[0]
+                elif silent and len(logs) > 1:
+                    rlog = silent[0 if rv.get("order") == "before" else -1]
+            logs = [e for e in logs if e is not rlog]
+            out["rival"] = dict(riv_box[0] if riv_box else {"result": None, "held": None},
+                                conns=[{"len": len(e["rx"]), "head": e["rx"][:96].decode("latin-1"), "hs": e["hs"], "cert": e["cert"]} for e in ([rlog] if rlog else [])])
 
         def want_of(j):
             if j < len(hops) - 1:
@@ -682,6 +862,13 @@ class Scenarios(Family):
         wk = self.warm_key(case)
         if wk is not None:
             rows[wk] = CERT_FP[case["cert"]]
+        rv = case.get("rival")
+        if rv and case["tofu"]:
+            if should_fail(case) is None:
+                return None            # the accept order decides who is shown which certificate: the oracle alone (oracle_rival)
+            if rv["how"] == "hold" and sit == "unpinned":
+                # the store as it is when the held handshake completes: the rival call has pinned what it was shown
+                rows[(t[0], t[1])] = CERT_FP[rival_cert(case)]
         store = ",".join(f"{k[0]}.{k[1]}={v}" for k, v in sorted(rows.items())) or "-"
 
         def hop_s(i, h, p):
@@ -729,11 +916,21 @@ class Scenarios(Family):
             if res[0] == "ok":
                 return ("unverified-peer-answered", f"pin store fault {case['fault']}: the call returned a response {res}")
             return None
-        if should_fail(case):
+        sf = should_fail(case)
+        rv = case.get("rival")
+        if rv and case["tofu"]:
+            bad = self.oracle_rival(case, obs)
+            if bad:
+                return bad
+            if rv["how"] == "hold" and rv["cert"] == "other" and case["situation"] == "unpinned" and ((obs.get("rival") or {}).get("result") or [None])[0] != "ok":
+                sf = None              # the rival call did not complete (so it may not have pinned anything): nothing is known about the pin in force
+        if sf is None:
+            pass
+        elif sf:
             if len(peers) == n_hops and last["len"] > 0:
                 return ("bytes-before-verification",
                         f"{case['situation']} certificate, {case['op']} to {recase(HOSTS[case['host']], case.get('hcase'))!r}"
-                        f"{' (pinned as ' + repr(HOSTS[case['host']]) + ')' if case.get('hcase') else ''}{along_desc(case)}: "
+                        f"{' (pinned as ' + repr(HOSTS[case['host']]) + ')' if case.get('hcase') else ''}{along_desc(case)}{rival_desc(case)}{crowd_desc(case)}: "
                         f"verification cannot pass, yet the peer got {last['len']} application bytes: {last['head'][:70]!r} "
                         f"({case['mode']} peer; pin made via {case.get('pin_via', 'trust')}; verify_ssl=True as well: {case.get('vssl') or 'no'}; "
                         f"client object held: {case.get('life') or 'bare'}{'; presented ' + cert_desc(case['cert']) if case.get('twin') else ''})")
@@ -751,6 +948,55 @@ class Scenarios(Family):
         if n_hops == 2 and peers and not peers[0]["equal"] and peers[0]["len"] > 0 and not peers[0]["prefix"]:
             return ("request-garbled", f"hop 0 received something that is not its request: {peers[0]['head'][:70]!r}")
         return self.oracle_connections(case, obs) or self.oracle_along(case, obs)
+
+    def oracle_rival(self, case, obs):
+        """the same statement for two calls to ONE host:port in flight on one store.  Every connection is judged against the pin in force when
+        its handshake completed: the pin stored before the calls, or - the host unpinned - the certificate the connection that completed
+        first was shown (first use).  When nobody held a handshake the order is not known, but no order lets two different certificates
+        pass the check of one host:port."""
+        rv, r = case.get("rival"), obs.get("rival")
+        if not rv or not r or not case["tofu"]:
+            return None
+        pin = self.pin_id(case)
+        pin_fp = sem(pin[1]) if pin is not None else None
+        was = "unpinned" if pin_fp is None else f"pinned to fingerprint {pin_fp}"
+        who = "one client object" if rv["who"] == "same" else "two client objects on one store file"
+        host = recase(HOSTS[case["host"]], case.get("hcase"))
+        a_name, b_name = f"call A ({case['op']})", f"call B ({rv['op']})"
+        mine = [dict(p, call=a_name, res=obs["result"]) for p in obs["peers"]]
+        theirs = [dict(p, call=b_name, res=r["result"]) for p in r["conns"]]
+        how = rv["how"]
+        conns = theirs + mine if how == "hold" else mine + theirs      # the order in which the handshakes were allowed to complete
+        live = [dict(p, fp=CERT_FP[CERTS.index(p["cert"])]) for p in conns if p["hs"] and p["cert"] in CERTS]
+        pair = f"{a_name} and {b_name} to ONE host:port ({host!r}, {was} at the start), {who}"
+        if how == "gather":
+            fed = [p for p in live if p["len"] > 0]
+            ok_fps = {pin_fp} if pin_fp is not None else {p["fp"] for p in fed[:1]}
+            odd = [p for p in fed if p["fp"] not in ok_fps]
+            if odd:
+                p = odd[0]
+                return ("bytes-to-peer-with-other-certificate",
+                        f"{pair}, in flight together (started {rv.get('gap', 0)} ms apart): " + (f"the connection shown {p['cert']!r} (fingerprint {p['fp']}, not the pin) received {p['len']} application bytes"
+                                                                              if pin_fp is not None else
+                                                                              f"connections shown DIFFERENT certificates ({fed[0]['cert']!r} and {p['cert']!r}) both received request bytes ({fed[0]['len']} and "
+                                                                              f"{p['len']}); at most one certificate can pass the check of one host:port")
+                        + f"; beginning {p['head'][:60]!r}; results {obs['result']} / {r['result']}")
+            return None
+        late, early = (a_name, b_name) if how == "hold" else (b_name, a_name)
+        by = None
+        for p in live:
+            if pin_fp is None:
+                if p["len"] > 0 or p["res"][0] == "ok":
+                    pin_fp, by = p["fp"], p     # first use: pinned from here on
+                continue
+            if p["fp"] != pin_fp and (p["len"] > 0 or p["res"][0] == "ok"):
+                story = (f"{pair}: {late[:6]}'s peer held its TLS handshake back until {early[:6]} was done" +
+                         (f" (shown {by['cert']!r}: first use, pinned)" if by else "") + f"; let go, it presented {p['cert']!r} - NOT the pin - and ")
+                tail = f"; fingerprints: pin in force {pin_fp}, presented {p['fp']}; {p['call']} ended with {p['res']}, the other call with {by['res'] if by else '-'}"
+                if p["len"] > 0:
+                    return ("bytes-to-peer-with-other-certificate", f"{story}received {p['len']} application bytes: {p['head'][:60]!r}{tail}")
+                return ("unverified-peer-answered", f"{story}{p['call']} returned a response{tail}")
+        return None
 
     def oracle_along(self, case, obs):
         """the same statement for the connections of the bystander call: its host:port has its own pin (or none: first use)"""
@@ -805,7 +1051,9 @@ class Scenarios(Family):
 
     def key(self, case, obs):
         dims = "".join(f" {k}={case[k]}" for k in ("warm", "pin_via", "fault", "vssl", "drop", "twin", "life", "hcase") if case.get(k) and case.get(k) != "trust") + (" host=dotted" if case["host"] >= DOTTED_FIRST else " host=lookalike" if case["host"] >= 3 else "") + (" chain_same" if case.get("chain_same") and case["op"] == "chain" else "") \
-            + (f" along={case['along']['state']}/{case['along']['order']}" if case.get("along") else "")
+            + (f" along={case['along']['state']}/{case['along']['order']}" if case.get("along") else "") \
+            + (f" rival={case['rival']['how']}/{case['rival']['cert']}/{case['rival']['who']}" if case.get("rival") else "") \
+            + (f" crowd={case['crowd']['n']}/{case['crowd']['shape']}" if case.get("crowd") else "")
         return f"{'on' if case['tofu'] else 'off'} {case['situation']} {case['op']} {case['mode'] if not dims else ''}{dims} -> {obs['result'][0]} rx={[min(p['len'], 1) for p in obs['peers']]}"
 
 
